@@ -1,11 +1,14 @@
 package main
 
-// The table of client operations exercised by C04 (connection loss) and C20 (malformed replies).
+// The table of client operations exercised by C04 (connection loss) and C20 (malformed replies), and the
+// option variants (which MaxPacket constructor, UseFstat, UseConcurrentReads/Writes,
+// MaxConcurrentRequestsPerFile) each of them is run under.
 // Every operation runs against the fake server of cli_fake.go: a 40-byte file, MaxPacket 16, so that the
 // multi-chunk paths (3 chunks + EOF probe) are taken with tiny frames.
 
 import (
 	"bytes"
+	"context"
 	"fmt"
 	"io"
 	"os"
@@ -13,6 +16,8 @@ import (
 	"time"
 
 	"github.com/pkg/sftp"
+
+	"verifharness/wire"
 )
 
 const (
@@ -33,6 +38,9 @@ type cliOp struct {
 	Run      func(e *cliOpEnv) (string, error)
 	Conc     bool // starts background goroutines inside the package
 	ErrOK    bool // the operation legitimately returns an error against valid replies
+	// Vars lists the option variants (cliOptAtoms, "+"-joined) that select another code path of THIS operation,
+	// on top of the variants every operation is run with (cliUniversalVars).
+	Vars []string
 }
 
 func cliErrStr(err error) string {
@@ -63,6 +71,15 @@ func cliOps() []cliOp {
 	concW := sftp.UseConcurrentWrites(true)
 	seqR := sftp.UseConcurrentReads(false)
 	data40 := cliPatternBytes("w", 0, 40)
+	two := sftp.MaxConcurrentRequestsPerFile(2)
+	tree := func(f *fakeSrv) { f.tree = cliTree() }
+	list := func(fis []os.FileInfo) string {
+		var s []string
+		for _, fi := range fis {
+			s = append(s, fmt.Sprintf("%s:%d:%v", fi.Name(), fi.Size(), fi.IsDir()))
+		}
+		return strings.Join(s, ",")
+	}
 	ops := []cliOp{
 		{Name: "Stat", Run: func(e *cliOpEnv) (string, error) { return cliFi(e.c.Stat("file")) }},
 		{Name: "Lstat", Run: func(e *cliOpEnv) (string, error) { return cliFi(e.c.Lstat("file")) }},
@@ -128,26 +145,26 @@ func cliOps() []cliOp {
 			}
 			return fmt.Sprintf("bsize=%d namemax=%d", v.Bsize, v.Namemax), nil
 		}},
-		{Name: "File.Stat", NeedFile: true, Run: func(e *cliOpEnv) (string, error) { return cliFi(e.f.Stat()) }},
+		{Name: "File.Stat", NeedFile: true, Vars: []string{"fstat-off"}, Run: func(e *cliOpEnv) (string, error) { return cliFi(e.f.Stat()) }},
 		{Name: "File.Chmod", NeedFile: true, Run: func(e *cliOpEnv) (string, error) { return "", e.f.Chmod(0o600) }},
 		{Name: "File.Chown", NeedFile: true, Run: func(e *cliOpEnv) (string, error) { return "", e.f.Chown(1, 2) }},
 		{Name: "File.Truncate", NeedFile: true, Run: func(e *cliOpEnv) (string, error) { return "", e.f.Truncate(3) }},
 		{Name: "File.Sync", NeedFile: true, Run: func(e *cliOpEnv) (string, error) { return "", e.f.Sync() }},
-		{Name: "File.Seek-end", NeedFile: true, Run: func(e *cliOpEnv) (string, error) {
+		{Name: "File.Seek-end", NeedFile: true, Vars: []string{"fstat-off"}, Run: func(e *cliOpEnv) (string, error) {
 			n, err := e.f.Seek(-1, io.SeekEnd)
 			return fmt.Sprint(n), err
 		}},
-		{Name: "File.Read", NeedFile: true, Run: func(e *cliOpEnv) (string, error) {
+		{Name: "File.Read", NeedFile: true, Vars: []string{"seq-reads", "req1"}, Run: func(e *cliOpEnv) (string, error) {
 			b := make([]byte, 10)
 			n, err := e.f.Read(b)
 			return fmt.Sprintf("%d %x", n, b[:max(n, 0)]), err
 		}},
-		{Name: "File.ReadAt-single", NeedFile: true, Run: func(e *cliOpEnv) (string, error) {
+		{Name: "File.ReadAt-single", NeedFile: true, Vars: []string{"seq-reads"}, Run: func(e *cliOpEnv) (string, error) {
 			b := make([]byte, 10)
 			n, err := e.f.ReadAt(b, 5)
 			return fmt.Sprintf("%d %x", n, b[:max(n, 0)]), err
 		}},
-		{Name: "File.ReadAt-single-short", NeedFile: true, Run: func(e *cliOpEnv) (string, error) {
+		{Name: "File.ReadAt-single-short", NeedFile: true, Vars: []string{"seq-reads", "req1"}, Run: func(e *cliOpEnv) (string, error) {
 			b := make([]byte, 16) // 8 bytes remain: DATA(8) then EOF status
 			n, err := e.f.ReadAt(b, 32)
 			if err == io.EOF {
@@ -155,12 +172,12 @@ func cliOps() []cliOp {
 			}
 			return fmt.Sprintf("%d %x", n, b[:max(n, 0)]), err
 		}},
-		{Name: "File.ReadAt-concurrent", NeedFile: true, Conc: true, Run: func(e *cliOpEnv) (string, error) {
+		{Name: "File.ReadAt-concurrent", NeedFile: true, Conc: true, Vars: []string{"req1", "conc-reads", "fstat+req1"}, Run: func(e *cliOpEnv) (string, error) {
 			b := make([]byte, 40)
 			n, err := e.f.ReadAt(b, 0)
 			return fmt.Sprintf("%d %x", n, b[:max(n, 0)]), err
 		}},
-		{Name: "File.ReadAt-concurrent-eof", NeedFile: true, Conc: true, Run: func(e *cliOpEnv) (string, error) {
+		{Name: "File.ReadAt-concurrent-eof", NeedFile: true, Conc: true, Vars: []string{"req1"}, Run: func(e *cliOpEnv) (string, error) {
 			b := make([]byte, 64)
 			n, err := e.f.ReadAt(b, 0)
 			if err == io.EOF {
@@ -168,17 +185,17 @@ func cliOps() []cliOp {
 			}
 			return fmt.Sprintf("%d %x", n, b[:max(min(n, 64), 0)]), err
 		}},
-		{Name: "File.ReadAt-sequential", NeedFile: true, Opts: []sftp.ClientOption{seqR}, Run: func(e *cliOpEnv) (string, error) {
+		{Name: "File.ReadAt-sequential", NeedFile: true, Opts: []sftp.ClientOption{seqR}, Vars: []string{"req1"}, Run: func(e *cliOpEnv) (string, error) {
 			b := make([]byte, 40)
 			n, err := e.f.ReadAt(b, 0)
 			return fmt.Sprintf("%d %x", n, b[:max(n, 0)]), err
 		}},
-		{Name: "File.WriteTo-sequential", NeedFile: true, Opts: []sftp.ClientOption{seqR}, Run: func(e *cliOpEnv) (string, error) {
+		{Name: "File.WriteTo-sequential", NeedFile: true, Opts: []sftp.ClientOption{seqR}, Vars: []string{"req1", "fstat+req2"}, Run: func(e *cliOpEnv) (string, error) {
 			var s cliSink
 			n, err := e.f.WriteTo(&s)
 			return fmt.Sprintf("%d %x", n, s.b), err
 		}},
-		{Name: "File.WriteTo-concurrent", NeedFile: true, Conc: true, Run: func(e *cliOpEnv) (string, error) {
+		{Name: "File.WriteTo-concurrent", NeedFile: true, Conc: true, Vars: []string{"fstat-off", "conc-reads", "req1", "fstat+req1", "fstat+req2", "fstat+seq-reads", "mp-checked+fstat", "mp-alias+fstat+req1"}, Run: func(e *cliOpEnv) (string, error) {
 			var s cliSink
 			n, err := e.f.WriteTo(&s)
 			return fmt.Sprintf("%d %x", n, s.b), err
@@ -188,48 +205,128 @@ func cliOps() []cliOp {
 			n, err := e.f.WriteTo(&s)
 			return fmt.Sprintf("%d %x", n, s.b), err
 		}},
-		{Name: "File.Write", NeedFile: true, Run: func(e *cliOpEnv) (string, error) {
+		{Name: "File.Write", NeedFile: true, Vars: []string{"conc-writes"}, Run: func(e *cliOpEnv) (string, error) {
 			n, err := e.f.Write(data40[:10])
 			return fmt.Sprint(n), err
 		}},
-		{Name: "File.WriteAt-single", NeedFile: true, Run: func(e *cliOpEnv) (string, error) {
+		{Name: "File.WriteAt-single", NeedFile: true, Vars: []string{"conc-writes", "conc-writes+req1"}, Run: func(e *cliOpEnv) (string, error) {
 			n, err := e.f.WriteAt(data40[:10], 7)
 			return fmt.Sprint(n), err
 		}},
-		{Name: "File.WriteAt-sequential", NeedFile: true, Run: func(e *cliOpEnv) (string, error) {
+		{Name: "File.WriteAt-sequential", NeedFile: true, Vars: []string{"seq-writes", "req1"}, Run: func(e *cliOpEnv) (string, error) {
 			n, err := e.f.WriteAt(data40, 0)
 			return fmt.Sprint(n), err
 		}},
-		{Name: "File.WriteAt-concurrent", NeedFile: true, Conc: true, Opts: []sftp.ClientOption{concW}, Run: func(e *cliOpEnv) (string, error) {
+		{Name: "File.WriteAt-concurrent", NeedFile: true, Conc: true, Opts: []sftp.ClientOption{concW}, Vars: []string{"req1", "mp-checked+req1"}, Run: func(e *cliOpEnv) (string, error) {
 			n, err := e.f.WriteAt(data40, 0)
 			return fmt.Sprint(n), err
 		}},
-		{Name: "File.Write-concurrent", NeedFile: true, Conc: true, Opts: []sftp.ClientOption{concW}, Run: func(e *cliOpEnv) (string, error) {
+		{Name: "File.Write-concurrent", NeedFile: true, Conc: true, Opts: []sftp.ClientOption{concW}, Vars: []string{"req1", "req2"}, Run: func(e *cliOpEnv) (string, error) {
 			n, err := e.f.Write(data40)
 			return fmt.Sprint(n), err
 		}},
-		{Name: "File.ReadFrom-sequential", NeedFile: true, Run: func(e *cliOpEnv) (string, error) {
+		{Name: "File.ReadFrom-sequential", NeedFile: true, Vars: []string{"conc-writes", "conc-writes+req1"}, Run: func(e *cliOpEnv) (string, error) {
 			n, err := e.f.ReadFrom(cliSrc{bytes.NewReader(data40)})
 			return fmt.Sprint(n), err
 		}},
-		{Name: "File.ReadFrom-concurrent", NeedFile: true, Conc: true, Opts: []sftp.ClientOption{concW}, Run: func(e *cliOpEnv) (string, error) {
+		{Name: "File.ReadFrom-concurrent", NeedFile: true, Conc: true, Opts: []sftp.ClientOption{concW}, Vars: []string{"req1", "mp-alias+req1"}, Run: func(e *cliOpEnv) (string, error) {
 			n, err := e.f.ReadFrom(bytes.NewReader(data40))
 			return fmt.Sprint(n), err
 		}},
-		{Name: "File.ReadFromWithConcurrency", NeedFile: true, Conc: true, Run: func(e *cliOpEnv) (string, error) {
+		{Name: "File.ReadFromWithConcurrency", NeedFile: true, Conc: true, Vars: []string{"req1", "conc-writes"}, Run: func(e *cliOpEnv) (string, error) {
 			n, err := e.f.ReadFromWithConcurrency(cliSrc{bytes.NewReader(data40)}, 2)
 			return fmt.Sprint(n), err
 		}},
+		// ReadFromWithConcurrency: concurrency < 1 means the Client's maximum, larger values are capped by it
+		{Name: "File.ReadFromWithConcurrency-default", NeedFile: true, Conc: true, Vars: []string{"req1", "req2"}, Run: func(e *cliOpEnv) (string, error) {
+			n, err := e.f.ReadFromWithConcurrency(cliSrc{bytes.NewReader(data40)}, 0)
+			return fmt.Sprint(n), err
+		}},
+		{Name: "File.ReadFromWithConcurrency-capped", NeedFile: true, Conc: true, Opts: []sftp.ClientOption{two}, Run: func(e *cliOpEnv) (string, error) {
+			n, err := e.f.ReadFromWithConcurrency(bytes.NewReader(data40), 1000)
+			return fmt.Sprint(n), err
+		}},
+		// ReadFrom with concurrent writes sizes its worker pool from the reader's optional interfaces:
+		// Len() (bytes.Reader above), Size(), *io.LimitedReader, Stat()
+		{Name: "File.ReadFrom-sized", NeedFile: true, Conc: true, Opts: []sftp.ClientOption{concW}, Vars: []string{"req1"}, Run: func(e *cliOpEnv) (string, error) {
+			n, err := e.f.ReadFrom(cliSized{cliSrc{bytes.NewReader(data40)}, 40})
+			return fmt.Sprint(n), err
+		}},
+		{Name: "File.ReadFrom-limited", NeedFile: true, Conc: true, Opts: []sftp.ClientOption{concW}, Vars: []string{"req1"}, Run: func(e *cliOpEnv) (string, error) {
+			n, err := e.f.ReadFrom(&io.LimitedReader{R: cliSrc{bytes.NewReader(cliPatternBytes("w", 0, 60))}, N: 40})
+			return fmt.Sprint(n), err
+		}},
+		{Name: "File.ReadFrom-statted", NeedFile: true, Conc: true, Opts: []sftp.ClientOption{concW}, Vars: []string{"req1"}, Run: func(e *cliOpEnv) (string, error) {
+			n, err := e.f.ReadFrom(cliStatted{cliSrc{bytes.NewReader(data40)}, 40})
+			return fmt.Sprint(n), err
+		}},
+		// the size hint is only a hint: a reader that announces less than one packet but delivers three (sequential
+		// path although concurrent writes are on), and one that announces much more than it delivers
+		{Name: "File.ReadFrom-sized-underreports", NeedFile: true, Opts: []sftp.ClientOption{concW}, Run: func(e *cliOpEnv) (string, error) {
+			n, err := e.f.ReadFrom(cliSized{cliSrc{bytes.NewReader(data40)}, 5})
+			return fmt.Sprint(n), err
+		}},
+		{Name: "File.ReadFrom-sized-overreports", NeedFile: true, Conc: true, Opts: []sftp.ClientOption{concW}, Vars: []string{"req2"}, Run: func(e *cliOpEnv) (string, error) {
+			n, err := e.f.ReadFrom(cliSized{cliSrc{bytes.NewReader(data40)}, 1 << 40})
+			return fmt.Sprint(n), err
+		}},
+		{Name: "File.SetExtendedData", NeedFile: true, Run: func(e *cliOpEnv) (string, error) {
+			return "", e.f.SetExtendedData("file", []sftp.StatExtended{{ExtType: "a@b", ExtData: "c"}})
+		}},
+		{Name: "OpenFile-flags", Run: func(e *cliOpEnv) (string, error) {
+			f, err := e.c.OpenFile("new", os.O_WRONLY|os.O_APPEND|os.O_CREATE|os.O_EXCL)
+			if err != nil {
+				return "", err
+			}
+			if f == nil {
+				return "nil-file", nil
+			}
+			e.f = f
+			return f.Name(), nil
+		}},
+		// multi-batch listings and the composites built on them (a two-level tree, cliTree)
+		{Name: "ReadDir-batches", Fake: tree, Run: func(e *cliOpEnv) (string, error) {
+			fis, err := e.c.ReadDir("dir")
+			return list(fis), err
+		}},
+		{Name: "ReadDirContext-batches", Fake: tree, Run: func(e *cliOpEnv) (string, error) {
+			ctx, cancel := context.WithCancel(context.Background())
+			defer cancel()
+			fis, err := e.c.ReadDirContext(ctx, "dir/sub")
+			return list(fis), err
+		}},
+		{Name: "Walk-tree", Fake: tree, Run: func(e *cliOpEnv) (string, error) {
+			// the walker hands out errors step by step: the operation's result is every path visited and the first error
+			w := e.c.Walk("dir")
+			var seen []string
+			var first error
+			for n := 0; n < 1000 && w.Step(); n++ {
+				if err := w.Err(); err != nil {
+					if first == nil {
+						first = err
+					}
+					continue
+				}
+				seen = append(seen, w.Path())
+			}
+			return strings.Join(seen, ","), first
+		}},
+		{Name: "Glob-tree", Fake: tree, Run: func(e *cliOpEnv) (string, error) {
+			m, err := e.c.Glob("dir/*/*")
+			return strings.Join(m, ","), err
+		}},
+		{Name: "RemoveAll-tree", Fake: tree, Run: func(e *cliOpEnv) (string, error) { return "", e.c.RemoveAll("dir") }},
+		{Name: "MkdirAll-deep", Fake: func(f *fakeSrv) { f.statMissing = true }, Run: func(e *cliOpEnv) (string, error) { return "", e.c.MkdirAll("a/b/c/") }},
 	}
 	// the same concurrent transfers with fewer workers than chunks (MaxConcurrentRequestsPerFile 2): the work
 	// channel is then still being fed when the first results (or the broadcast error) arrive
-	two := sftp.MaxConcurrentRequestsPerFile(2)
 	for _, o := range ops {
 		switch o.Name {
 		case "File.ReadAt-concurrent", "File.ReadAt-concurrent-eof", "File.WriteTo-concurrent", "File.WriteAt-concurrent", "File.ReadFrom-concurrent":
 			o2 := o
 			o2.Name += "-2workers"
 			o2.Opts = append(append([]sftp.ClientOption(nil), o.Opts...), two)
+			o2.Vars = nil
 			ops = append(ops, o2)
 		}
 	}
@@ -247,5 +344,129 @@ func cliOpByName(name string) *cliOp {
 }
 
 func cliClientOpts(o *cliOp) []sftp.ClientOption {
-	return append([]sftp.ClientOption{sftp.MaxPacketUnchecked(cliMaxPacket)}, o.Opts...)
+	opts, _ := cliClientOptsVar(o, "")
+	return opts
+}
+
+// ---------- option variants ----------
+//
+// A case of C04 / C20 carries an option variant: "+"-joined atoms applied on top of the operation's own
+// options. The packet size is 16 in every variant; what varies is WHICH of the three constructors sets it
+// (MaxPacketUnchecked — the default of these harnesses —, MaxPacketChecked, the MaxPacket alias) and the
+// transfer options. Atoms that restate a default (conc-reads, seq-writes, fstat-off) pass the option
+// explicitly instead of leaving it out.
+
+func cliOptAtom(a string) (sftp.ClientOption, bool) {
+	switch a {
+	case "fstat":
+		return sftp.UseFstat(true), true
+	case "fstat-off":
+		return sftp.UseFstat(false), true
+	case "seq-reads":
+		return sftp.UseConcurrentReads(false), true
+	case "conc-reads":
+		return sftp.UseConcurrentReads(true), true
+	case "conc-writes":
+		return sftp.UseConcurrentWrites(true), true
+	case "seq-writes":
+		return sftp.UseConcurrentWrites(false), true
+	case "req1":
+		return sftp.MaxConcurrentRequestsPerFile(1), true
+	case "req2":
+		return sftp.MaxConcurrentRequestsPerFile(2), true
+	case "req64":
+		return sftp.MaxConcurrentRequestsPerFile(64), true
+	case "copy-stderr":
+		// live only with sftp.NewClient (the SSH session's stderr); inert with NewClientPipe
+		return sftp.CopyStderrTo(&cliSink{}), true
+	}
+	return nil, false
+}
+
+// cliClientOptsVar builds the options of an operation under a variant.
+func cliClientOptsVar(o *cliOp, variant string) ([]sftp.ClientOption, error) {
+	mp := sftp.MaxPacketUnchecked(cliMaxPacket)
+	var atoms []sftp.ClientOption
+	if variant != "" {
+		for _, a := range strings.Split(variant, "+") {
+			switch a {
+			case "mp-checked":
+				mp = sftp.MaxPacketChecked(cliMaxPacket)
+			case "mp-alias":
+				mp = sftp.MaxPacket(cliMaxPacket)
+			case "mp-unchecked":
+				mp = sftp.MaxPacketUnchecked(cliMaxPacket)
+			default:
+				opt, ok := cliOptAtom(a)
+				if !ok {
+					return nil, fmt.Errorf("unknown option atom %q in variant %q", a, variant)
+				}
+				atoms = append(atoms, opt)
+			}
+		}
+	}
+	return append(append([]sftp.ClientOption{mp}, o.Opts...), atoms...), nil
+}
+
+// cliUniversalVars: every operation is run with these (no operation should care, which is the point).
+var cliUniversalVars = []string{"mp-checked", "mp-alias", "fstat"}
+
+// cliOpVariants lists the variants of an operation: "" first, then the universal ones, then its own.
+func cliOpVariants(o cliOp) []string {
+	out := []string{""}
+	seen := map[string]bool{"": true}
+	for _, v := range append(append([]string(nil), cliUniversalVars...), o.Vars...) {
+		if !seen[v] {
+			seen[v] = true
+			out = append(out, v)
+		}
+	}
+	return out
+}
+
+// cliOpKey is the name of an (operation, variant) pair in caches, histograms and canonical case texts.
+func cliOpKey(op, variant string) string {
+	if variant == "" {
+		return op
+	}
+	return op + "|" + variant
+}
+
+// cliSized / cliStatted: readers that announce their size through the optional interfaces ReadFrom looks for.
+type cliSized struct {
+	cliSrc
+	n int64
+}
+
+func (s cliSized) Size() int64 { return s.n }
+
+type cliStatted struct {
+	cliSrc
+	n int64
+}
+
+func (s cliStatted) Stat() (os.FileInfo, error) { return cliFileInfo{s.n}, nil }
+
+type cliFileInfo struct{ n int64 }
+
+func (fi cliFileInfo) Name() string       { return "src" }
+func (fi cliFileInfo) Size() int64        { return fi.n }
+func (fi cliFileInfo) Mode() os.FileMode  { return 0o644 }
+func (fi cliFileInfo) ModTime() time.Time { return time.Unix(0, 0) }
+func (fi cliFileInfo) IsDir() bool        { return false }
+func (fi cliFileInfo) Sys() any           { return nil }
+
+// cliTree: "dir" is listed in three batches (".", ".." and a file; a sub-directory and a file; a file), then EOF;
+// "dir/sub" in two.
+func cliTree() map[string][][]wire.NameEnt {
+	d := func(name string) wire.NameEnt {
+		return wire.NameEnt{Name: name, Long: "drwxr-xr-x 1 u g 0 Jan 1 00:00 " + name, A: wire.St{Flags: wire.ASize | wire.APerm, Perm: 0o40755}}
+	}
+	f := func(name string, size uint64) wire.NameEnt {
+		return wire.NameEnt{Name: name, Long: "-rw-r--r-- 1 u g 0 Jan 1 00:00 " + name, A: wire.St{Flags: wire.ASize | wire.APerm, Size: size, Perm: 0o100644}}
+	}
+	return map[string][][]wire.NameEnt{
+		"dir":     {{d("."), d(".."), f("alpha", 40)}, {d("sub"), f("beta", 7)}, {f("gamma", 1)}},
+		"dir/sub": {{f("delta", 2)}, {f("epsilon", 3)}},
+	}
 }
